@@ -169,8 +169,8 @@ template <bool NoneIsLeaf>
             {
                 const scoped_critical_section cs{handle};
                 const auto dict = py::reinterpret_borrow<py::dict>(handle);
-                node.arity = DictGetSize(dict);
                 keys = DictKeys(dict);
+                node.arity = ListGetSize(keys);  // the keys that are visited
                 if (node.kind != PyTreeKind::OrderedDict) [[likely]] {
                     node.original_keys = py::getattr(keys, Py_Get_ID(copy))();
                     if (!IsDictInsertionOrdered(registry_namespace)) [[likely]] {
